@@ -21,7 +21,7 @@ MON_ACTION_PROPS = {"C09": ["C09w_QuietAfterCloseT"]}
 LIVENESS = {"C08": ["L_Flush", "L_CallsReturn"], "C09": ["L_Close", "L_CallsReturn"]}
 
 OUTCOMES = [("ok", 55), ("ackLost", 10), ("rejTemp", 10), ("rejPerm", 5), ("netTransient", 5), ("netOther", 3),
-            ("appliedTimeout", 4), ("appliedNetOther", 3), ("rejTemp2", 3), ("netRefused", 2)]
+            ("appliedTimeout", 4), ("appliedNetOther", 3), ("rejTemp2", 3), ("netRefused", 2), ("rejUnknown", 3), ("rejPerm2", 2)]
 
 
 def pick_outcome(rng):
@@ -221,6 +221,18 @@ def directed_scripts():
             steps.append({"op": "call", "c": 10 + g, "g": g, "msgs": [M(40), M(40)]})
         steps.append({"op": "sleep", "ms": 60})
         out.append({"id": "D12-first-use-%d" % k, "cfg": dict(base, nparts={"t": 1}, batchSize=1, batchTimeoutMs=10), "outcomes": {}, "steps": steps})
+    # D13: batches that reach BatchBytes exactly (one message of exactly BatchBytes; several that sum to it) are full: they are sent
+    # without waiting for the batch timer (60 s here) or for further writes
+    for k, msgs in enumerate([[M(120)], [M(60), M(60)], [M(40), M(40), M(40)], [M(120), M(60), M(60)]]):
+        for asyn in (False, True):
+            out.append({"id": "D13-exactly-full-%d-%s" % (k, "a" if asyn else "s"), "cfg": dict(base, batchSize=10, batchBytes=120, nparts={"t": 1}, batchTimeoutMs=60000),
+                        "outcomes": {}, "steps": [{"op": "call", "c": 1, "g": 1, "msgs": msgs}, {"op": "waitcall", "c": 1}, {"op": "sleep", "ms": 300 if asyn else 10},
+                                                  {"op": "close"}, {"op": "waitclose"}]})
+            out[-1]["cfg"]["async"] = asyn
+    # D14: BatchBytes left at its zero value means the default of 1 MiB: a larger message is rejected before anything of the call is sent
+    out.append({"id": "D14-default-batchbytes", "cfg": dict(base, batchSize=10, batchBytes=0, nparts={"t": 1}, batchTimeoutMs=10), "outcomes": {}, "steps": [
+        {"op": "call", "c": 1, "g": 1, "msgs": [M(40), M(1048577), M(40)]}, {"op": "waitcall", "c": 1},
+        {"op": "call", "c": 2, "g": 1, "msgs": [M(1048576), M(40)]}, {"op": "waitcall", "c": 2}]})
     # D11: a BatchTimeout far beyond the scenario (size-only batching): batches closed by the overflow path, by
     # becoming full and by Close; Close and the calls must not wait for any batch timer (C09), and a batch opened
     # after an overflow is still closed by its own timer (C08, short timeout variant)
@@ -244,7 +256,7 @@ def directed_scripts():
     return out
 
 
-REAL_KINDS = ["ok", "ok", "ackLost", "ackCut", "ackNever", "rejTemp", "rejTemp2", "rejPerm", "netTransient"]
+REAL_KINDS = ["ok", "ok", "ackLost", "ackCut", "ackNever", "rejTemp", "rejTemp2", "rejPerm", "netTransient", "rejUnknown", "rejPerm2"]
 
 
 def real_script(rng, sid, pv=None, cuts=None):
